@@ -72,14 +72,17 @@ Proof.
     + rewrite Nat2N.inj_succ, N.pow_succ_r' in Hv. apply N.div_lt_upper_bound; lia.
 Qed.
 
+Lemma firstn_len_app {A} (a b : list A) n : length a = n -> firstn n (a ++ b) = a.
+Proof. intros <-. now rewrite firstn_app, Nat.sub_diag, firstn_O, app_nil_r, firstn_all. Qed.
+Lemma skipn_len_app {A} (a b : list A) n : length a = n -> skipn n (a ++ b) = b.
+Proof. intros <-. now rewrite skipn_app, Nat.sub_diag, skipn_all, skipn_O. Qed.
+
 (* field reader on an encoded field followed by anything *)
 Lemma fld_enc n v rest : v < 256 ^ N.of_nat n -> fld n (le_enc n v ++ rest) = (v, rest).
 Proof.
-  intros H. unfold fld. f_equal.
-  - rewrite firstn_app, le_enc_length, Nat.sub_diag. simpl. rewrite app_nil_r.
-    rewrite <- (le_enc_length n v) at 1. rewrite firstn_all. now apply le_dec_enc.
-  - rewrite skipn_app, le_enc_length, Nat.sub_diag. simpl.
-    rewrite <- (le_enc_length n v) at 1. now rewrite skipn_all.
+  intros H. unfold fld.
+  rewrite (firstn_len_app _ _ _ (le_enc_length n v)), (skipn_len_app _ _ _ (le_enc_length n v)).
+  now rewrite le_dec_enc.
 Qed.
 
 (* ------------------------------------------------------------------ *)
@@ -99,8 +102,8 @@ Ltac pow_simpl :=
 
 Lemma dec_enc_packet p rest : fits_packet p -> dec_packet (enc_packet p ++ rest) = p.
 Proof.
-  intros (H1 & H2 & H3 & H4 & H5 & H6). destruct p; simpl in *.
-  unfold dec_packet, enc_packet; simpl pk_rel; simpl pk_imp; simpl pk_idx; simpl pk_size; simpl pk_skip; simpl pk_flags.
+  intros (H1 & H2 & H3 & H4 & H5 & H6). destruct p as [a1 a2 a3 a4 a5 a6]; unfold pk_rel, pk_imp, pk_idx, pk_size, pk_skip, pk_flags in *.
+  unfold dec_packet, enc_packet; unfold pk_rel, pk_imp, pk_idx, pk_size, pk_skip, pk_flags.
   rewrite <- !app_assoc.
   repeat (rewrite fld_enc by (pow_simpl; assumption)). reflexivity.
 Qed.
@@ -109,8 +112,8 @@ Proof. unfold enc_packet. now rewrite !app_length, !le_enc_length. Qed.
 
 Lemma dec_enc_stream s rest : fits_stream s -> dec_stream (enc_stream s ++ rest) = s.
 Proof.
-  intros (H1 & H2 & H3 & H4 & H5 & H6 & H7 & H8 & H9 & H10 & H11 & H12 & H13). destruct s; simpl in *.
-  unfold dec_stream, enc_stream; cbn [st_id st_first st_last st_datastart st_cbytes st_sbytes st_pktstart st_flags st_hg st_chost st_shost st_cport st_sport].
+  intros (H1 & H2 & H3 & H4 & H5 & H6 & H7 & H8 & H9 & H10 & H11 & H12 & H13). destruct s as [a1 a2 a3 a4 a5 a6 a7 a8 a9 a10 a11 a12 a13]; unfold st_id, st_first, st_last, st_datastart, st_cbytes, st_sbytes, st_pktstart, st_flags, st_hg, st_chost, st_shost, st_cport, st_sport in *.
+  unfold dec_stream, enc_stream; unfold st_id, st_first, st_last, st_datastart, st_cbytes, st_sbytes, st_pktstart, st_flags, st_hg, st_chost, st_shost, st_cport, st_sport.
   rewrite <- !app_assoc.
   repeat (rewrite fld_enc by (pow_simpl; assumption)). reflexivity.
 Qed.
@@ -119,7 +122,7 @@ Proof. unfold enc_stream. now rewrite !app_length, !le_enc_length. Qed.
 
 Lemma dec_enc_group g rest : fits_group g -> dec_group (enc_group g ++ rest) = g.
 Proof.
-  intros (H1 & H2 & H3). destruct g; simpl in *. unfold dec_group, enc_group; cbn [he_start he_count he_flags].
+  intros (H1 & H2 & H3). destruct g as [a1 a2 a3]; unfold he_start, he_count, he_flags in *. unfold dec_group, enc_group; unfold he_start, he_count, he_flags.
   rewrite <- !app_assoc. repeat (rewrite fld_enc by (pow_simpl; assumption)). reflexivity.
 Qed.
 Lemma enc_group_length g : length (enc_group g) = 8%nat.
@@ -127,7 +130,7 @@ Proof. unfold enc_group. now rewrite !app_length, !le_enc_length. Qed.
 
 Lemma dec_enc_import e rest : fits_import e -> dec_import (enc_import e ++ rest) = e.
 Proof.
-  intros (H1 & H2). destruct e; simpl in *. unfold dec_import, enc_import; cbn [ie_name ie_off].
+  intros (H1 & H2). destruct e as [a1 a2]; unfold ie_name, ie_off in *. unfold dec_import, enc_import; unfold ie_name, ie_off.
   rewrite <- !app_assoc. repeat (rewrite fld_enc by (pow_simpl; assumption)). reflexivity.
 Qed.
 Lemma enc_import_length e : length (enc_import e) = 16%nat.
@@ -135,8 +138,8 @@ Proof. unfold enc_import. now rewrite !app_length, !le_enc_length. Qed.
 
 Lemma dec_enc_u32 x rest : x < P32 -> dec_u32 (enc_u32 x ++ rest) = x.
 Proof.
-  intros H. unfold dec_u32, enc_u32. rewrite firstn_app, le_enc_length, Nat.sub_diag. simpl. rewrite app_nil_r.
-  rewrite <- (le_enc_length 4 x) at 1. rewrite firstn_all. apply le_dec_enc. pow_simpl. assumption.
+  intros H. unfold dec_u32, enc_u32. rewrite (firstn_len_app _ _ _ (le_enc_length 4 x)).
+  apply le_dec_enc. pow_simpl. assumption.
 Qed.
 Lemma enc_u32_length x : length (enc_u32 x) = 4%nat.
 Proof. apply le_enc_length. Qed.
@@ -144,30 +147,29 @@ Proof. apply le_enc_length. Qed.
 (* ------------------------------------------------------------------ *)
 (* record lists                                                        *)
 (* ------------------------------------------------------------------ *)
+Lemma enc_list_length {A} (enc : A -> bytes) (size : nat) (Hsize : forall x, length (enc x) = size) l :
+  length (enc_list enc l) = (size * length l)%nat.
+Proof. unfold enc_list. induction l; cbn [map concat length]; [lia|]. rewrite app_length, Hsize, IHl. lia. Qed.
+
 Section RecList.
   Context {A : Type} (enc : A -> bytes) (dec : bytes -> A) (size : nat) (fits : A -> Prop).
   Hypothesis Hsize : forall x, length (enc x) = size.
   Hypothesis Hpos : (0 < size)%nat.
   Hypothesis Hdec : forall x rest, fits x -> dec (enc x ++ rest) = x.
 
-  Lemma enc_list_length l : length (enc_list enc l) = (size * length l)%nat.
-  Proof. unfold enc_list. induction l; simpl; [lia|]. rewrite app_length, Hsize, IHl. lia. Qed.
-
   Lemma dec_list_aux_enc l rest : Forall fits l -> dec_list_aux (length l) size dec (enc_list enc l ++ rest) = l.
   Proof.
     induction l as [|x r IH]; intros HF; [reflexivity|].
-    inversion HF; subst. unfold enc_list in *. simpl. rewrite <- app_assoc.
+    inversion HF; subst. unfold enc_list in *. cbn [map concat]. rewrite <- app_assoc.
+    cbn [length dec_list_aux]. rewrite (firstn_len_app _ _ _ (Hsize x)), (skipn_len_app _ _ _ (Hsize x)).
     f_equal.
-    - rewrite firstn_app, Hsize, Nat.sub_diag. simpl. rewrite app_nil_r.
-      rewrite <- (Hsize x) at 1. rewrite firstn_all.
-      rewrite <- (app_nil_r (enc x)). now apply Hdec.
-    - rewrite skipn_app, Hsize, Nat.sub_diag. simpl.
-      rewrite <- (Hsize x) at 1. rewrite skipn_all. simpl. now apply IH.
+    - rewrite <- (app_nil_r (enc x)). now apply Hdec.
+    - now apply IH.
   Qed.
 
   Lemma dec_enc_list l : Forall fits l -> dec_list size dec (enc_list enc l) = l.
   Proof.
-    intros HF. unfold dec_list. rewrite enc_list_length.
+    intros HF. unfold dec_list. rewrite (enc_list_length enc size Hsize).
     replace (Nat.div (size * length l) size) with (length l).
     - rewrite <- (app_nil_r (enc_list enc l)). now apply dec_list_aux_enc.
     - rewrite Nat.mul_comm. symmetry. apply Nat.div_mul. lia.
@@ -177,10 +179,20 @@ End RecList.
 (* ------------------------------------------------------------------ *)
 (* section layout                                                      *)
 (* ------------------------------------------------------------------ *)
-Lemma layout_length pos secs : length (fst (layout pos secs)) = length secs.
+Definition pad8 (e : N) : N := (8 - e mod 8) mod 8.
+Lemma layout_cons pos s r :
+  layout pos (s :: r) = ((pos, pos + lenN s) :: fst (layout (pos + lenN s + pad8 (pos + lenN s)) r),
+                         s ++ repeat 0 (N.to_nat (pad8 (pos + lenN s))) ++ snd (layout (pos + lenN s + pad8 (pos + lenN s)) r)).
+Proof. cbn [layout]. fold (pad8 (pos + lenN s)). now destruct (layout _ r). Qed.
+Lemma lenN_repeat {A} (x : A) n : lenN (repeat x n) = N.of_nat n.
+Proof. unfold lenN. now rewrite repeat_length. Qed.
+Lemma layout_nil pos : layout pos [] = ([], []).
+Proof. reflexivity. Qed.
+
+Lemma layout_length secs : forall pos, length (fst (layout pos secs)) = length secs.
 Proof.
-  revert pos. induction secs as [|s r IH]; intros pos; simpl; [reflexivity|].
-  destruct (layout _ r) eqn:E. simpl. specialize (IH (pos + lenN s + (8 - (pos + lenN s) mod 8) mod 8)). rewrite E in IH. simpl in IH. now rewrite IH.
+  induction secs as [|s r IH]; intros pos; [reflexivity|].
+  rewrite layout_cons. cbn [fst length]. now rewrite IH.
 Qed.
 
 (* every section is found again at its (Begin, End) in any image that carries the body at offset pos *)
@@ -190,18 +202,27 @@ Lemma layout_slice secs : forall pos pre post k b e,
     exists s, nth_error secs k = Some s /\ sliceN b e (pre ++ snd (layout pos secs) ++ post) = s.
 Proof.
   induction secs as [|s r IH]; intros pos pre post k b e Hpre Hk.
-  - simpl in Hk. destruct k; discriminate.
-  - simpl in *. destruct (layout _ r) as [offs img] eqn:E. simpl in *.
-    destruct k as [|k].
-    + simpl in Hk. inversion Hk; subst b e. exists s. split; [reflexivity|].
+  - rewrite layout_nil in Hk. destruct k; discriminate.
+  - rewrite layout_cons in *. cbn [fst snd] in *.
+    destruct k as [|k]; cbn [nth_error] in *.
+    + inversion Hk; subst b e. exists s. split; [reflexivity|].
       rewrite <- app_assoc. rewrite <- Hpre. apply sliceN_app3.
-    + simpl in Hk.
-      set (pad := repeat 0 (N.to_nat ((8 - (pos + lenN s) mod 8) mod 8))) in *.
-      specialize (IH (pos + lenN s + (8 - (pos + lenN s) mod 8) mod 8) (pre ++ s ++ pad) post k b e).
-      rewrite E in IH. simpl in IH.
-      destruct IH as (s' & Hs' & Hsl); [|assumption|].
-      * rewrite !lenN_app, Hpre. unfold pad, lenN at 3. rewrite repeat_length. lia.
+    + set (pad := repeat 0 (N.to_nat (pad8 (pos + lenN s)))) in *.
+      destruct (IH (pos + lenN s + pad8 (pos + lenN s)) (pre ++ s ++ pad) post k b e) as (s' & Hs' & Hsl); [|assumption|].
+      * rewrite !lenN_app, Hpre. unfold pad. rewrite lenN_repeat. lia.
       * exists s'. split; [assumption|]. rewrite <- Hsl. f_equal. now rewrite <- !app_assoc.
+Qed.
+
+Lemma layout_bounds secs : forall pos k b e,
+    nth_error (fst (layout pos secs)) k = Some (b, e) -> pos <= b /\ b <= e /\ e <= pos + lenN (snd (layout pos secs)).
+Proof.
+  induction secs as [|s r IH]; intros pos k b e Hk.
+  - rewrite layout_nil in Hk. destruct k; discriminate.
+  - rewrite layout_cons in *. cbn [fst snd] in *.
+    destruct k as [|k]; cbn [nth_error] in Hk.
+    + inversion Hk; subst. rewrite lenN_app. lia.
+    + specialize (IH _ k b e Hk).
+      rewrite !lenN_app, lenN_repeat. lia.
 Qed.
 
 (* ------------------------------------------------------------------ *)
@@ -216,18 +237,6 @@ Definition fits_file (f : file) : Prop :=
   (* every section offset fits the 8-byte header fields *)
   lenN (encode_file f) < P64.
 
-Lemma layout_bounds secs : forall pos k b e,
-    nth_error (fst (layout pos secs)) k = Some (b, e) -> pos <= b /\ b <= e /\ e <= pos + lenN (snd (layout pos secs)).
-Proof.
-  induction secs as [|s r IH]; intros pos k b e Hk; simpl in *.
-  - destruct k; discriminate.
-  - destruct (layout _ r) as [offs img] eqn:E. simpl in *.
-    destruct k as [|k]; simpl in Hk.
-    + inversion Hk; subst. rewrite lenN_app. lia.
-    + specialize (IH _ k b e). rewrite E in IH. simpl in IH. specialize (IH Hk).
-      rewrite !lenN_app. unfold lenN at 3. rewrite repeat_length. lia.
-Qed.
-
 Lemma dec_enc_sec be rest : fst be < P64 /\ snd be < P64 -> dec_sec (enc_sec be ++ rest) = be.
 Proof.
   intros [H1 H2]. destruct be as [b e]. unfold dec_sec, enc_sec. simpl fst in *; simpl snd in *.
@@ -235,6 +244,13 @@ Proof.
 Qed.
 Lemma enc_sec_length be : length (enc_sec be) = 16%nat.
 Proof. unfold enc_sec. now rewrite !app_length, !le_enc_length. Qed.
+
+Lemma nth_map_some {A B} (g : A -> B) l : forall i k d, nth_error l i = Some k -> nth i (map g l) d = g k.
+Proof.
+  induction l as [|x r IH]; intros [|i] k d H; cbn [nth_error map nth] in *; try discriminate.
+  - now inversion H.
+  - now apply IH.
+Qed.
 
 Lemma bytes_eqb_refl a : bytes_eqb a a = true.
 Proof. induction a; simpl; auto. now rewrite N.eqb_refl. Qed.
@@ -250,14 +266,14 @@ Section File.
 
   Lemma encode_file_eq : encode_file f = header ++ body.
   Proof.
-    unfold encode_file, header, hsecs, offs, body. destruct (layout header_size (write_order f)). simpl.
+    unfold encode_file, header, hsecs, offs, body. destruct (layout header_size (write_order f)). cbn [fst snd].
     now rewrite <- !app_assoc.
   Qed.
 
   Lemma header_len : lenN header = header_size.
   Proof.
     unfold header, lenN. rewrite !app_length, le_enc_length.
-    rewrite (enc_list_length enc_sec 16 enc_sec_length). unfold hsecs. rewrite map_length. reflexivity.
+    rewrite (enc_list_length enc_sec 16%nat enc_sec_length). unfold hsecs. rewrite map_length. reflexivity.
   Qed.
 
   Lemma offs_len : length offs = 12%nat.
@@ -269,20 +285,18 @@ Section File.
     rewrite encode_file_eq, lenN_app, header_len in Hlen.
     unfold hsecs. apply Forall_map. apply Forall_forall. intros k Hk.
     destruct (nth_error offs k) as [[b e]|] eqn:En.
-    - rewrite (nth_error_nth _ _ _ En). simpl.
+    - rewrite (nth_error_nth _ _ _ En). cbn [fst snd].
       pose proof (layout_bounds (write_order f) header_size k b e En). fold body in H. lia.
-    - rewrite nth_overflow by (now apply nth_error_None). simpl. unfold P64. lia.
+    - rewrite nth_overflow by (now apply nth_error_None). cbn [fst snd]. unfold P64. lia.
   Qed.
 
   Lemma header_sections_encode : header_sections (encode_file f) = hsecs.
   Proof.
     unfold header_sections. rewrite encode_file_eq. unfold header. rewrite <- !app_assoc.
-    change (skipn 24 (magic ++ le_enc 8 (f_ref f) ++ enc_list enc_sec hsecs ++ body))
-      with (skipn 8 (le_enc 8 (f_ref f) ++ enc_list enc_sec hsecs ++ body)).
-    rewrite skipn_app, le_enc_length, Nat.sub_diag. simpl skipn at 2.
-    rewrite <- (le_enc_length 8 (f_ref f)) at 1. rewrite skipn_all. simpl app.
+    rewrite (app_assoc magic).
+    rewrite (skipn_len_app (magic ++ le_enc 8 (f_ref f)) _ 24) by (rewrite app_length, le_enc_length; reflexivity).
     change 12%nat with (length hsecs).
-    apply (dec_list_aux_enc enc_sec dec_sec 16 (fun be => fst be < P64 /\ snd be < P64) enc_sec_length dec_enc_sec).
+    apply (dec_list_aux_enc enc_sec dec_sec 16%nat (fun be => fst be < P64 /\ snd be < P64) enc_sec_length dec_enc_sec).
     apply hsecs_fit.
   Qed.
 
@@ -292,9 +306,7 @@ Section File.
     intros Hi. unfold section_bytes. rewrite header_sections_encode.
     assert (Hk : (k < 12)%nat).
     { apply nth_error_In in Hi. simpl in Hi. intuition lia. }
-    unfold hsecs. erewrite nth_indep with (d' := (fun k => nth k offs (0,0)) 0%nat).
-    2: { rewrite map_length. apply nth_error_Some. now rewrite Hi. }
-    rewrite map_nth. rewrite (nth_error_nth _ _ _ Hi).
+    unfold hsecs. rewrite (nth_map_some _ _ _ _ _ Hi).
     destruct (nth_error offs k) as [[b e]|] eqn:En.
     2: { apply nth_error_None in En. rewrite offs_len in En. lia. }
     rewrite (nth_error_nth _ _ _ En).
@@ -307,23 +319,25 @@ Section File.
   Proof.
     unfold decode_file.
     assert (Hm : firstn 16 (encode_file f) = magic).
-    { rewrite encode_file_eq. unfold header. rewrite <- !app_assoc. now rewrite (firstn_app 16 magic), firstn_all2 by (simpl; lia). }
-    rewrite Hm, bytes_eqb_refl. simpl negb. cbv iota.
+    { rewrite encode_file_eq. unfold header. rewrite <- !app_assoc. now rewrite (firstn_len_app magic _ 16 eq_refl). }
+    rewrite Hm, bytes_eqb_refl. cbn [negb].
     destruct Hfit as (Href & Hp & Hs & Hg & Hi & H1 & H2 & H3 & H4 & Hlen).
     rewrite (section_bytes_encode 0 0), (section_bytes_encode 1 3), (section_bytes_encode 2 5), (section_bytes_encode 3 4),
       (section_bytes_encode 4 6), (section_bytes_encode 5 2), (section_bytes_encode 6 1), (section_bytes_encode 7 7),
       (section_bytes_encode 8 8), (section_bytes_encode 9 9), (section_bytes_encode 10 10), (section_bytes_encode 11 11) by reflexivity.
     cbn [write_order nth].
-    rewrite (dec_enc_list enc_packet dec_packet 16 fits_packet enc_packet_length) by (try lia; auto using dec_enc_packet).
-    rewrite (dec_enc_list enc_group dec_group 8 fits_group enc_group_length) by (try lia; auto using dec_enc_group).
-    rewrite (dec_enc_list enc_import dec_import 16 fits_import enc_import_length) by (try lia; auto using dec_enc_import).
-    rewrite (dec_enc_list enc_stream dec_stream 64 fits_stream enc_stream_length) by (try lia; auto using dec_enc_stream).
-    rewrite !(dec_enc_list enc_u32 dec_u32 4 (fun x => x < P32) enc_u32_length) by (try lia; auto using dec_enc_u32).
+    rewrite (dec_enc_list enc_packet dec_packet 16%nat fits_packet enc_packet_length ltac:(lia) dec_enc_packet _ Hp).
+    rewrite (dec_enc_list enc_group dec_group 8%nat fits_group enc_group_length ltac:(lia) dec_enc_group _ Hg).
+    rewrite (dec_enc_list enc_import dec_import 16%nat fits_import enc_import_length ltac:(lia) dec_enc_import _ Hi).
+    rewrite (dec_enc_list enc_stream dec_stream 64%nat fits_stream enc_stream_length ltac:(lia) dec_enc_stream _ Hs).
+    rewrite (dec_enc_list enc_u32 dec_u32 4%nat (fun x => x < P32) enc_u32_length ltac:(lia) dec_enc_u32 _ H1).
+    rewrite (dec_enc_list enc_u32 dec_u32 4%nat (fun x => x < P32) enc_u32_length ltac:(lia) dec_enc_u32 _ H2).
+    rewrite (dec_enc_list enc_u32 dec_u32 4%nat (fun x => x < P32) enc_u32_length ltac:(lia) dec_enc_u32 _ H3).
+    rewrite (dec_enc_list enc_u32 dec_u32 4%nat (fun x => x < P32) enc_u32_length ltac:(lia) dec_enc_u32 _ H4).
     assert (Hr : le_dec (firstn 8 (skipn 16 (encode_file f))) = f_ref f).
     { rewrite encode_file_eq. unfold header. rewrite <- !app_assoc.
-      change (skipn 16 (magic ++ ?x)) with x.
-      rewrite firstn_app, le_enc_length, Nat.sub_diag. simpl firstn at 2. rewrite app_nil_r.
-      rewrite <- (le_enc_length 8 (f_ref f)) at 1. rewrite firstn_all. apply le_dec_enc. pow_simpl. assumption. }
+      rewrite (skipn_len_app magic _ 16 eq_refl), (firstn_len_app _ _ 8 (le_enc_length 8 (f_ref f))).
+      apply le_dec_enc. pow_simpl. assumption. }
     rewrite Hr. destruct f; reflexivity.
   Qed.
 End File.
